@@ -8,7 +8,10 @@ import mir
 from common import RESAMPLERS
 
 ALLOC_SINK = re.compile(r"__rust_(alloc|alloc_zeroed|realloc|dealloc|no_alloc_shim)|handle_alloc_error|raw_vec::handle_error|alloc::alloc::")
+EXPAND = ["realfft::RealToComplex", "realfft::ComplexToReal", "rustfft::Fft"]
 TRUSTED_VIRTUAL = {
+    "rustfft::Fft": {"process_with_scratch": "rustfft contract: no allocation when scratch of get_*_scratch_len() is supplied (reached only through impls the thorough tier could not expand)",
+                    "process_outofplace_with_scratch": "rustfft contract (as above)", "get_inplace_scratch_len": "getter", "get_outofplace_scratch_len": "getter"},
     # trait method -> reason (trusted boundary in the quick tier)
     "realfft::RealToComplex": {"process_with_scratch": "realfft contract: process_with_scratch uses only the caller's scratch"},
     "realfft::ComplexToReal": {"process_with_scratch": "realfft contract: process_with_scratch uses only the caller's scratch"},
@@ -23,6 +26,8 @@ def classify_leaf(l):
         return "ok", "compiler intrinsic"
     if crate == "core" and kind == "opaque":
         return "ok", "crate core cannot allocate (no allocator access); panicking paths diverge"
+    if kind == "foreign" and crate == "core":
+        return "ok", "LLVM intrinsic declared in core::core_arch (e.g. vzeroupper)"
     if kind == "foreign" or ALLOC_SINK.search(name):
         return "sink", "allocator entry point"
     if kind == "virtual":
@@ -49,7 +54,7 @@ def run(rep):
     boundary = set()
     for tag, fft in configs:
         try:
-            doc = mir.mode_m(ctx.repo, facts, fft=fft, tag=tag, expand=(["realfft::RealToComplex", "realfft::ComplexToReal"] if ctx.tier == "thorough" else None))
+            doc = mir.mode_m(ctx.repo, facts, fft=fft, tag=tag, expand=(EXPAND if ctx.tier == "thorough" else None))
         except ir.AnchorMissing as e:
             rep.anchor_missing(R, "roots crate does not build against the current tree (%s): %s" % (tag, str(e)[-600:]))
             continue
@@ -66,6 +71,16 @@ def run(rep):
             rep.ob("R-C09-control", "%s/%s" % (tag, c), True, "allocating wrapper is detected as allocating", "src/lib.rs",
                    sample={"control": c, "sinks": sorted(l["name"] for l in r["leaves"] if classify_leaf(l)[0] == "sink")[:3]})
         own_virtual_methods = set()
+        exp, unexp = set(), set()
+        for r in doc["roots"]:
+            exp.update(r.get("expanded", []))
+            unexp.update(x.split(" : ", 1)[1] for x in r.get("unexpanded", []))
+        if ctx.tier == "thorough":
+            rep.extra.setdefault("virtual_calls_expanded", {})[tag] = sorted(exp)[:12]
+            rep.extra.setdefault("impls_not_expanded_trusted", {})[tag] = sorted(unexp)
+            if fft:
+                rep.ob(R, "%s/realfft-expanded" % tag, any("realfft::RealToComplex" in x and "process_with_scratch" in x for x in exp) and any("realfft::ComplexToReal" in x and "process_with_scratch" in x for x in exp),
+                       "thorough tier: realfft's process_with_scratch impls are walked instead of trusted (%d virtual call sites expanded, %d impls with undetermined generics left trusted)" % (len(exp), len(unexp)), "")
         for grp in ("runtime", "vec", "kernel"):
             for n in names[grp]:
                 r = roots.get(n)
